@@ -74,12 +74,13 @@ Record symbol_map := mkSM {
   sm_name_to_class : list (name * N);
   sm_name_to_def : list (name * N);
   sm_name_to_multiclass : list (name * N);
+  sm_name_to_defset : list (name * N);
   sm_file_syms : list (fileid * list symbol_id);     (* file_to_symbol_list *)
   sm_pos : list (fileid * list ivl);                 (* pos_to_symbol_map *)
   sm_cur : option symbol_id;                         (* target of the last `*_mut` borrow *)
   sm_diags : list file_range }.                      (* IndexCtx::diagnostics (ranges only) *)
 
-Definition sm_empty : symbol_map := mkSM [] [] [] [] [] [] [] [] [] [] [] [] None [].
+Definition sm_empty : symbol_map := mkSM [] [] [] [] [] [] [] [] [] [] [] [] [] None [].
 
 (** outcomes *)
 Inductive sm_error :=
@@ -106,42 +107,45 @@ Definition get_arena (S : symbol_map) (k : sym_kind) : list entry :=
 Definition set_arena (S : symbol_map) (k : sym_kind) (l : list entry) : symbol_map :=
   match k with
   | KRecord => mkSM l (sm_targs S) (sm_fields S) (sm_vars S) (sm_defsets S) (sm_multiclasses S) (sm_defms S)
-                 (sm_name_to_class S) (sm_name_to_def S) (sm_name_to_multiclass S) (sm_file_syms S) (sm_pos S) (sm_cur S) (sm_diags S)
+                 (sm_name_to_class S) (sm_name_to_def S) (sm_name_to_multiclass S) (sm_name_to_defset S) (sm_file_syms S) (sm_pos S) (sm_cur S) (sm_diags S)
   | KTemplateArg => mkSM (sm_records S) l (sm_fields S) (sm_vars S) (sm_defsets S) (sm_multiclasses S) (sm_defms S)
-                 (sm_name_to_class S) (sm_name_to_def S) (sm_name_to_multiclass S) (sm_file_syms S) (sm_pos S) (sm_cur S) (sm_diags S)
+                 (sm_name_to_class S) (sm_name_to_def S) (sm_name_to_multiclass S) (sm_name_to_defset S) (sm_file_syms S) (sm_pos S) (sm_cur S) (sm_diags S)
   | KRecordField => mkSM (sm_records S) (sm_targs S) l (sm_vars S) (sm_defsets S) (sm_multiclasses S) (sm_defms S)
-                 (sm_name_to_class S) (sm_name_to_def S) (sm_name_to_multiclass S) (sm_file_syms S) (sm_pos S) (sm_cur S) (sm_diags S)
+                 (sm_name_to_class S) (sm_name_to_def S) (sm_name_to_multiclass S) (sm_name_to_defset S) (sm_file_syms S) (sm_pos S) (sm_cur S) (sm_diags S)
   | KVariable => mkSM (sm_records S) (sm_targs S) (sm_fields S) l (sm_defsets S) (sm_multiclasses S) (sm_defms S)
-                 (sm_name_to_class S) (sm_name_to_def S) (sm_name_to_multiclass S) (sm_file_syms S) (sm_pos S) (sm_cur S) (sm_diags S)
+                 (sm_name_to_class S) (sm_name_to_def S) (sm_name_to_multiclass S) (sm_name_to_defset S) (sm_file_syms S) (sm_pos S) (sm_cur S) (sm_diags S)
   | KDefset => mkSM (sm_records S) (sm_targs S) (sm_fields S) (sm_vars S) l (sm_multiclasses S) (sm_defms S)
-                 (sm_name_to_class S) (sm_name_to_def S) (sm_name_to_multiclass S) (sm_file_syms S) (sm_pos S) (sm_cur S) (sm_diags S)
+                 (sm_name_to_class S) (sm_name_to_def S) (sm_name_to_multiclass S) (sm_name_to_defset S) (sm_file_syms S) (sm_pos S) (sm_cur S) (sm_diags S)
   | KMulticlass => mkSM (sm_records S) (sm_targs S) (sm_fields S) (sm_vars S) (sm_defsets S) l (sm_defms S)
-                 (sm_name_to_class S) (sm_name_to_def S) (sm_name_to_multiclass S) (sm_file_syms S) (sm_pos S) (sm_cur S) (sm_diags S)
+                 (sm_name_to_class S) (sm_name_to_def S) (sm_name_to_multiclass S) (sm_name_to_defset S) (sm_file_syms S) (sm_pos S) (sm_cur S) (sm_diags S)
   | KDefm => mkSM (sm_records S) (sm_targs S) (sm_fields S) (sm_vars S) (sm_defsets S) (sm_multiclasses S) l
-                 (sm_name_to_class S) (sm_name_to_def S) (sm_name_to_multiclass S) (sm_file_syms S) (sm_pos S) (sm_cur S) (sm_diags S)
+                 (sm_name_to_class S) (sm_name_to_def S) (sm_name_to_multiclass S) (sm_name_to_defset S) (sm_file_syms S) (sm_pos S) (sm_cur S) (sm_diags S)
   end.
 
 Definition set_name_to_class (S : symbol_map) (m : list (name * N)) : symbol_map :=
   mkSM (sm_records S) (sm_targs S) (sm_fields S) (sm_vars S) (sm_defsets S) (sm_multiclasses S) (sm_defms S)
-       m (sm_name_to_def S) (sm_name_to_multiclass S) (sm_file_syms S) (sm_pos S) (sm_cur S) (sm_diags S).
+       m (sm_name_to_def S) (sm_name_to_multiclass S) (sm_name_to_defset S) (sm_file_syms S) (sm_pos S) (sm_cur S) (sm_diags S).
 Definition set_name_to_def (S : symbol_map) (m : list (name * N)) : symbol_map :=
   mkSM (sm_records S) (sm_targs S) (sm_fields S) (sm_vars S) (sm_defsets S) (sm_multiclasses S) (sm_defms S)
-       (sm_name_to_class S) m (sm_name_to_multiclass S) (sm_file_syms S) (sm_pos S) (sm_cur S) (sm_diags S).
+       (sm_name_to_class S) m (sm_name_to_multiclass S) (sm_name_to_defset S) (sm_file_syms S) (sm_pos S) (sm_cur S) (sm_diags S).
 Definition set_name_to_multiclass (S : symbol_map) (m : list (name * N)) : symbol_map :=
   mkSM (sm_records S) (sm_targs S) (sm_fields S) (sm_vars S) (sm_defsets S) (sm_multiclasses S) (sm_defms S)
-       (sm_name_to_class S) (sm_name_to_def S) m (sm_file_syms S) (sm_pos S) (sm_cur S) (sm_diags S).
+       (sm_name_to_class S) (sm_name_to_def S) m (sm_name_to_defset S) (sm_file_syms S) (sm_pos S) (sm_cur S) (sm_diags S).
+Definition set_name_to_defset (S : symbol_map) (m : list (name * N)) : symbol_map :=
+  mkSM (sm_records S) (sm_targs S) (sm_fields S) (sm_vars S) (sm_defsets S) (sm_multiclasses S) (sm_defms S)
+       (sm_name_to_class S) (sm_name_to_def S) (sm_name_to_multiclass S) m (sm_file_syms S) (sm_pos S) (sm_cur S) (sm_diags S).
 Definition set_file_syms (S : symbol_map) (m : list (fileid * list symbol_id)) : symbol_map :=
   mkSM (sm_records S) (sm_targs S) (sm_fields S) (sm_vars S) (sm_defsets S) (sm_multiclasses S) (sm_defms S)
-       (sm_name_to_class S) (sm_name_to_def S) (sm_name_to_multiclass S) m (sm_pos S) (sm_cur S) (sm_diags S).
+       (sm_name_to_class S) (sm_name_to_def S) (sm_name_to_multiclass S) (sm_name_to_defset S) m (sm_pos S) (sm_cur S) (sm_diags S).
 Definition set_pos (S : symbol_map) (m : list (fileid * list ivl)) : symbol_map :=
   mkSM (sm_records S) (sm_targs S) (sm_fields S) (sm_vars S) (sm_defsets S) (sm_multiclasses S) (sm_defms S)
-       (sm_name_to_class S) (sm_name_to_def S) (sm_name_to_multiclass S) (sm_file_syms S) m (sm_cur S) (sm_diags S).
+       (sm_name_to_class S) (sm_name_to_def S) (sm_name_to_multiclass S) (sm_name_to_defset S) (sm_file_syms S) m (sm_cur S) (sm_diags S).
 Definition set_cur (S : symbol_map) (c : option symbol_id) : symbol_map :=
   mkSM (sm_records S) (sm_targs S) (sm_fields S) (sm_vars S) (sm_defsets S) (sm_multiclasses S) (sm_defms S)
-       (sm_name_to_class S) (sm_name_to_def S) (sm_name_to_multiclass S) (sm_file_syms S) (sm_pos S) c (sm_diags S).
+       (sm_name_to_class S) (sm_name_to_def S) (sm_name_to_multiclass S) (sm_name_to_defset S) (sm_file_syms S) (sm_pos S) c (sm_diags S).
 Definition set_diags (S : symbol_map) (d : list file_range) : symbol_map :=
   mkSM (sm_records S) (sm_targs S) (sm_fields S) (sm_vars S) (sm_defsets S) (sm_multiclasses S) (sm_defms S)
-       (sm_name_to_class S) (sm_name_to_def S) (sm_name_to_multiclass S) (sm_file_syms S) (sm_pos S) (sm_cur S) d.
+       (sm_name_to_class S) (sm_name_to_def S) (sm_name_to_multiclass S) (sm_name_to_defset S) (sm_file_syms S) (sm_pos S) (sm_cur S) d.
 
 Definition nth_N {A} (l : list A) (i : N) : option A := nth_error l (N.to_nat i).
 Definition len_N {A} (l : list A) : N := N.of_nat (length l).
@@ -218,6 +222,7 @@ Definition defm (S : symbol_map) (id : N) : sres entry := symbol S (KDefm, id).
 Definition find_class (S : symbol_map) (n : name) : option N := amap_get (sm_name_to_class S) n.
 Definition find_def (S : symbol_map) (n : name) : option N := amap_get (sm_name_to_def S) n.
 Definition find_multiclass (S : symbol_map) (n : name) : option N := amap_get (sm_name_to_multiclass S) n.
+Definition find_defset (S : symbol_map) (n : name) : option N := amap_get (sm_name_to_defset S) n.
 (** HashMap iteration order is unspecified: compare as multisets *)
 Definition iter_class (S : symbol_map) : list N := amap_values (sm_name_to_class S).
 Definition iter_def (S : symbol_map) : list N := amap_values (sm_name_to_def S).
@@ -416,7 +421,8 @@ Definition apply_op (S : symbol_map) (o : op) : sres symbol_map :=
   | OpAddVariable n typ loc id =>
       add_symbol S KVariable (mkEntry n loc [] (PVariable typ)) true true id
   | OpAddDefset n typ loc id =>
-      add_symbol S KDefset (mkEntry n loc [] (PDefset typ [])) true true id
+      let S1 := set_name_to_defset S (amap_insert (sm_name_to_defset S) n (next_id S KDefset)) in
+      add_symbol S1 KDefset (mkEntry n loc [] (PDefset typ [])) true true id
   | OpAddMulticlass n loc id =>
       let S1 := set_name_to_multiclass S (amap_insert (sm_name_to_multiclass S) n (next_id S KMulticlass)) in
       add_symbol S1 KMulticlass (mkEntry n loc [] (PMulticlass [] [])) true true id
